@@ -79,19 +79,22 @@ func (q *timedQueue) releaseUnsafe() []peer.ID {
 	return expired
 }
 
-func (q *timedQueue) push(peerID peer.ID) {
+// push adds the item to the queue and returns the time at which it expires.
+func (q *timedQueue) push(peerID peer.ID) time.Time {
 	q.Lock()
 	defer q.Unlock()
 
+	createdAt := q.clock.Now()
 	q.items = append(q.items, item{
 		ID:        peerID,
-		createdAt: q.clock.Now(),
+		createdAt: createdAt,
 	})
 
 	// if it is the first item in queue, create a timer to call releaseExpired after its expiration
 	if len(q.items) == 1 {
 		q.after = q.clock.AfterFunc(q.ttl, q.releaseExpired)
 	}
+	return createdAt.Add(q.ttl)
 }
 
 func (q *timedQueue) len() int {
